@@ -130,6 +130,258 @@ def run_engine(ctx):
     return e
 
 
+def _prevalidated_table():
+    """tables/vbm_prevalidated.json: statements whose refusals are made unreachable-after-mutation by an up-front
+    resolution of the same destination in the same function.  The engine is context-insensitive over the callee's
+    keyword arguments and cannot see that itself; an entry is honoured only while the named validation calls are
+    still there and still precede the first change (checked below on every run), and SA-VBM.prevalidate decides
+    that they run under the conditions of the later use."""
+    from ..report import load_json
+    out = {}
+    for ent in load_json('tables/vbm_prevalidated.json', {'prevalidated': []})['prevalidated']:
+        out['%s|%s' % (ent['function'], ent['statement'])] = ent
+    return out
+
+
+def _rolled_back(ctx, f, t):
+    """t sits in the body of a try whose (catch-all) handler ends with a bare `raise` after assigning to object state"""
+    par = ctx.parents(f)
+    cur = t
+    while cur is not None and cur is not f.node:
+        p = par.get(id(cur))
+        if isinstance(p, ast.Try) and any(x is cur for x in p.body):
+            for h in p.handlers:
+                if h.body and isinstance(h.body[-1], ast.Raise) and h.body[-1].exc is None and \
+                        (h.type is None or norm(h.type) in ('Exception', 'BaseException')) and \
+                        any(isinstance(x, ast.Assign) and any(isinstance(tt, ast.Attribute) for tt in x.targets) for x in h.body):
+                    return True
+        cur = p
+    return False
+
+
+def _prevalidation_missing(ctx, engine, f, canon_stmt, names, rolled_back=False):
+    """None if every named validation call occurs in a statement of f that dominates the refusing statement and is
+    not itself preceded by a persistent write; otherwise a description of what is missing."""
+    from ..model import stmt_head
+    g = ctx.cfg(f)
+    dom = g.dominators()
+    targets = []
+    for n in ctx.own_nodes(f):
+        if isinstance(n, ast.stmt) and not isinstance(n, (ast.FunctionDef, ast.ClassDef)):
+            if canon_key(ctx, f.qual, stmt_head(n)[:240], n.lineno) == canon_stmt:
+                targets.append(n)
+    if not targets:
+        return 'the refusing statement could not be located again'
+    if rolled_back:
+        if not all(_rolled_back(ctx, f, t) for t in targets):
+            return 'the statement is no longer inside a try whose handler undoes the change and re-raises'
+        return None
+    # statements of f that are origins of events with roots (= reached after a change)
+    late = set()
+    for key, roots, origin in engine.summ[f.qual][1]:
+        if roots and origin is not None and origin[0] == f.qual:
+            late.add(origin[3])
+    for name in names:
+        sites = []
+        for n in ctx.own_nodes(f):
+            if isinstance(n, ast.Call) and ((isinstance(n.func, ast.Attribute) and n.func.attr == name) or (isinstance(n.func, ast.Name) and n.func.id == name)):
+                sites.append(ctx.enclosing_stmt(f, n))
+        if not sites:
+            return 'no call of %s is left in %s' % (name, f.name)
+        for t in targets:
+            tn = g.node_of(t)
+            ok = False
+            for st in sites:
+                sn = g.node_of(st)
+                if st is t or sn is None or tn is None:
+                    continue
+                if (sn.id in dom.get(tn.id, ()) or _runs_whenever(ctx, f, st, t)) and st.lineno not in late:
+                    ok = True
+            if not ok:
+                return 'the call of %s no longer precedes it on every path (or is itself made after the first change)' % name
+    return None
+
+
+# query method -> insert method whose refusals it repeats without changing anything (checked by SA-SIB.query_twin)
+QUERY_TWINS = {
+    'dr.DirectoryRecord._add_child': 'dr.DirectoryRecord.check_new_child',
+}
+
+
+def _runs_whenever(ctx, f, v, t):
+    """structural form of "v has been executed whenever t executes": v sits in a chain of ifs whose tests (with
+    polarity) are all among the conditions that hold at t, and the outermost statement of that chain precedes, in
+    one block, the statement that holds t"""
+    from .. import expand as ex
+    from .keyident import _normfact
+    par = ctx.parents(f)
+
+    def chain(x):
+        out = [x]
+        while True:
+            p = par.get(id(out[-1]))
+            if p is None or p is f.node:
+                break
+            out.append(p)
+        return out
+    cv, ct = chain(v), chain(t)
+    if any(isinstance(x, (ast.For, ast.While, ast.Try, ast.With)) for x in cv[1:]):
+        return False
+    vf = set()
+    for test, pol, _at in ex.conditions(ctx, f, v, True):
+        for a, b in ex.conjuncts(test, pol):
+            vf.add(_normfact(a, b))
+    tf = set()
+    for test, pol, _at in ex.conditions(ctx, f, t, False):
+        for a, b in ex.conjuncts(test, pol):
+            tf.add(_normfact(a, b))
+    if not vf <= tf:
+        return False
+    # common block: the innermost block that holds an ancestor-or-self of both
+    for av in cv:
+        pb = par.get(id(av))
+        for at in ct:
+            if par.get(id(at)) is pb and at is not av:
+                for fld in ('body', 'orelse', 'finalbody'):
+                    blk = getattr(pb, fld, None)
+                    if isinstance(blk, list) and any(x is av for x in blk) and any(x is at for x in blk):
+                        iv = [i for i, x in enumerate(blk) if x is av][0]
+                        it = [i for i, x in enumerate(blk) if x is at][0]
+                        return iv < it
+    return False
+
+
+def _covered_by_earlier_refusals(ctx, engine, f, canon_stmt, sites):
+    """If every raise site of the finding is also raised by statements of f that dominate the refusing statement and
+    run before the first change - the same site, or the site of the same message in the query twin of an insert
+    method - and those statements mention every parameter of f that the refusing statement mentions, return a
+    description of them; else None."""
+    from ..model import stmt_head
+    from .. import expand as ex
+    g = ctx.cfg(f)
+    dom = g.dominators()
+    targets = [n for n in ctx.own_nodes(f) if isinstance(n, ast.stmt) and not isinstance(n, (ast.FunctionDef, ast.ClassDef)) and
+               canon_key(ctx, f.qual, stmt_head(n)[:240], n.lineno) == canon_stmt]
+    if len(targets) != 1:
+        return None
+    t = targets[0]
+    tn = g.node_of(t)
+    if tn is None:
+        return None
+    late = set()
+    for key, roots, origin in engine.summ[f.qual][1]:
+        if roots and origin is not None and origin[0] == f.qual:
+            late.add(origin[3])
+    params = set(p.lstrip('*') for p in f.params) - {'self'}
+
+    def pnames(st):
+        # parameters of f in the backward slice of the statement (through plain, tuple and augmented assignments)
+        from .cache import _slice
+        out = set()
+        vals = [x for x in ast.iter_child_nodes(st) if isinstance(x, ast.expr)]
+        seen = set()
+        work = list(vals)
+        gg, RD = ex._rd(ctx, f)
+        node = gg.node_of(st)
+        reach = (RD.get(node.id) if node is not None else None) or frozenset()
+        while work:
+            x = work.pop()
+            for sub in ast.walk(x):
+                if isinstance(sub, ast.Name) and isinstance(sub.ctx, ast.Load):
+                    if sub.id in params:
+                        out.add(sub.id)
+                    if sub.id in seen:
+                        continue
+                    seen.add(sub.id)
+                    for nm, dnid in reach:
+                        if nm == sub.id:
+                            ds = gg.nodes[dnid].stmt
+                            if isinstance(ds, (ast.Assign, ast.AugAssign)) and ds is not st:
+                                work.append(ds.value)
+                    # an object filled in by its own methods (`rec.new_file(vd, 0, name, parent, ...)`) depends on their arguments
+                    for c in ctx.own_nodes(f):
+                        if isinstance(c, ast.Call) and isinstance(c.func, ast.Attribute) and isinstance(c.func.value, ast.Name) and \
+                                c.func.value.id == sub.id and sub.id != 'self' and c.lineno < st.lineno and any(nm == sub.id for nm, _d in reach):
+                            work.extend(c.args)
+                            work.extend(k.value for k in c.keywords)
+        return out
+    covered = {}
+    for n in ctx.own_nodes(f):
+        if not isinstance(n, ast.stmt) or isinstance(n, (ast.FunctionDef, ast.ClassDef)) or n is t or n.lineno in late:
+            continue
+        sn = g.node_of(n)
+        if sn is None:
+            continue
+        if sn.id not in dom.get(tn.id, ()) and not _runs_whenever(ctx, f, n, t):
+            continue
+        if isinstance(n, ast.Raise):
+            continue
+        if not isinstance(n, (ast.Expr, ast.Assign, ast.AugAssign)):
+            continue
+        for c in ast.walk(n):
+            if not isinstance(c, ast.Call):
+                continue
+            callees, kind = ctx.t._resolve(c, f)
+            for cal in callees or ():
+                if not hasattr(cal, 'qual') or cal.qual not in engine.summ:
+                    continue
+                for key, roots, origin in engine.summ[cal.qual][1]:
+                    covered.setdefault((key[0], key[1], key[2]), set()).add(n)
+                # a query twin reached from here asks every question of its insert method, including those the
+                # engine prunes for this call's literal arguments (rr_name=None)
+                reach = ctx.reachable_from([cal], include_candidates=False)
+                for ins, qry in QUERY_TWINS.items():
+                    if qry in reach:
+                        from ..engine import raises_class, raise_message
+                        for rn in ctx.own_nodes(ctx.func(qry)):
+                            if isinstance(rn, ast.Raise) and raises_class(rn) == 'PyCdlibInvalidInput':
+                                covered.setdefault((qry, 'PyCdlibInvalidInput', raise_message(rn)), set()).add(n)
+    used = set()
+    for site in sites:
+        alt = (QUERY_TWINS.get(site[0]), site[1], site[2])
+        hit = covered.get(site) or (covered.get(alt) if alt[0] else None)
+        if not hit:
+            return None
+        used |= hit
+    need = pnames(t)
+    have = set()
+    for n in used:
+        have |= pnames(n)
+    if not need or not need <= have:
+        # without a parameter that ties the two together nothing says that the earlier refusal is about the same
+        # destination (the reviewed table is the place for such cases)
+        return None
+    return ', '.join('`%s` (line %d)' % (stmt_head(n)[:50], n.lineno) for n in sorted(used, key=lambda x: x.lineno)[:3])
+
+
+@rule('SA-SIB.query_twin')
+@props('C14')
+def query_twin(ctx):
+    """A query method that exists so that callers can ask "would the insertion refuse?" before they change anything
+    raises every PyCdlibInvalidInput message the insertion raises (a refusal added to the insertion alone re-opens the
+    window between the first change and the refusal)."""
+    from ..engine import raises_class, raise_message
+    obs = []
+    for ins, qry in sorted(QUERY_TWINS.items()):
+        fi, fq = ctx.func(ins), ctx.func(qry)
+
+        def msgs(fn):
+            out = {}
+            for n in ctx.own_nodes(fn):
+                if isinstance(n, ast.Raise) and raises_class(n) == 'PyCdlibInvalidInput':
+                    out[raise_message(n)] = n
+            return out
+        mi, mq = msgs(fi), msgs(fq)
+        for m, node in sorted(mi.items(), key=lambda x: str(x[0])):
+            ok = m in mq
+            obs.append(Ob('SA-SIB.query_twin', '%s|%s' % (qry, str(m)[:60]), ok, ctx.loc(fi, node),
+                          '' if ok else '%s refuses with %r but %s, which callers use to ask before they change anything, does not: that refusal still arrives '
+                          'after the first change' % (ins, m, qry)))
+    if not obs:
+        raise AnalysisError('anchor-vanished: query twins')
+    return obs
+
+
 @rule('SA-VBM')
 @props('C14')
 def vbmrule(ctx):
@@ -146,22 +398,47 @@ def vbmrule(ctx):
                 continue
             org = origin or (fi.qual, '?', '?', 0)
             k = (org[0], canon_key(ctx, org[0], org[2], org[3] if len(org) > 3 else 0))
-            d = findings.setdefault(k, {'methods': set(), 'first': set(), 'raises': set()})
+            d = findings.setdefault(k, {'methods': set(), 'first': set(), 'raises': set(), 'sites': set()})
+            d['sites'].add((key[0], key[1], key[2]))
             d['methods'].add(fi.name)
             d['first'].add(org[1])
             d['raises'].add('%s: %s' % (key[0].split('.', 1)[1], key[2][:50]))
         clean[fi.qual] = len(events)
     obs = []
+    preval = _prevalidated_table()
+    used_preval = set()
+    auto_ok = set()
     for k, d in sorted(findings.items()):
         key = '%s|%s' % k
         f = ctx.m.functions.get(k[0])
+        ent = preval.get(key)
+        if ent is None and f is not None:
+            auto = _covered_by_earlier_refusals(ctx, e, f, k[1], d['sites'])
+            if auto:
+                obs.append(Ob('SA-VBM', key, True, ctx.loc(f, f.node), 'pre-validated: every refusal this statement can raise (%d raise sites) is raised first, on the same '
+                              'parameters, by %s before anything is changed' % (len(d['sites']), auto)))
+                auto_ok.add(k)
+                continue
+        if ent is not None and f is not None:
+            used_preval.add(key)
+            missing = _prevalidation_missing(ctx, e, f, k[1], ent['validated_by'], ent.get('rolled_back', False))
+            obs.append(Ob('SA-VBM', key, not missing, ctx.loc(f, f.node),
+                          ('pre-validated: %s' % ent['reason']) if not missing else
+                          'in %s, `%s` can refuse after `%s` changed persistent state; the refusals were made unreachable by resolving the same destination up front '
+                          'with %s, but %s: a refused call leaves the image object changed again (reached from %s)'
+                          % (k[0], k[1][:100], sorted(d['first'])[0], ', '.join(ent['validated_by']), missing, ', '.join(sorted(d['methods'])))))
+            continue
         obs.append(Ob('SA-VBM', key, False, ctx.loc(f, f.node) if f else '',
                       'in %s, `%s` has already changed persistent state when `%s` can still refuse with PyCdlibInvalidInput '
                       '(%d raise sites: %s); reached from %s: a refused call leaves the image object changed'
                       % (k[0], sorted(d['first'])[0], k[1][:100], len(d['raises']), '; '.join(sorted(d['raises'])[:6]) + (' ...' if len(d['raises']) > 6 else ''),
                          ', '.join(sorted(d['methods'])))))
+    for key in sorted(set(preval) - used_preval):
+        ent = preval[key]
+        if ent['function'] not in ctx.m.functions:
+            raise AnalysisError('tables/vbm_prevalidated.json names a function that no longer exists: %s' % ent['function'])
     for fi in muts:
-        bad = [1 for k, d in findings.items() if fi.name in d['methods']]
+        bad = [1 for k, d in findings.items() if fi.name in d['methods'] and ('%s|%s' % k) not in preval and k not in auto_ok]
         if not bad:
             obs.append(Ob('SA-VBM', '%s|all refusals precede mutation' % fi.qual, True, ctx.loc(fi, fi.node),
                           '%d escaping PyCdlibInvalidInput raise sites, none preceded by a persistent write' % clean[fi.qual]))
